@@ -216,6 +216,7 @@ class Explorer:
         self.max_paths = max_paths
         self.npaths = 0
         self.feas_checks = 0
+        self.proves_cache = {}
 
     def next_prefix(self):
         if not self.pending:
@@ -278,6 +279,9 @@ class Path:
         self.prestate_syms = []  # (path string, Sym) for replay
         self.cur_loc = ''
         self.byte_cache = {}
+        self.lazy = {}
+        self.def_ids = set()
+        self.nproves = 0
         self.keep = []  # keeps z3 terms alive so that ids used as cache keys stay unique
 
     # -- decisions --------------------------------------------------------
@@ -299,6 +303,11 @@ class Path:
             print(f'[feas {dt:.1f}s {r}] at {self.cur_loc} pc={len(self.pc)}', file=sys.stderr, flush=True)
         return r != z3.unsat
 
+    def add_def(self, f):
+        """definition / valid theory fact / type invariant: not an assumption about the program"""
+        self.pc.append(f)
+        self.def_ids.add(id(f))
+
     def proves(self, c):
         """does the path condition entail c (decided inline; False on unknown)"""
         c = z3.simplify(c)
@@ -306,13 +315,33 @@ class Path:
             return True
         if z3.is_false(c):
             return False
+        # re-execution is deterministic: the k-th query of a path prefix is always the same
+        self.nproves += 1
+        key = (tuple(self.decisions), self.nproves)
+        cache = self.explorer.proves_cache
+        if key in cache:
+            return cache[key]
         self.explorer.feas_checks += 1
         s = z3.Solver()
         s.set('timeout', 1000)
         for p in self.pc:
             s.add(p)
         s.add(z3.Not(c))
-        return s.check() == z3.unsat
+        r = s.check() == z3.unsat
+        cache[key] = r
+        return r
+
+    def force(self, lv):
+        """resolve a lazily chosen OneOf alternative (a decision)"""
+        if lv.lid in self.lazy:
+            return self.lazy[lv.lid]
+        i = self.decide([True] * len(lv.options), f'oneof {lv.hint}') if len(lv.options) > 1 else 0
+        o = lv.options[i]
+        from . import contracts as _C
+
+        v = self.cfg.fresh(self, o, lv.hint) if isinstance(o, _C.T) else self.import_native(o)
+        self.lazy[lv.lid] = v
+        return v
 
     def decide(self, conds, why=''):
         if self.quant:
@@ -374,6 +403,10 @@ class Path:
         else:
             g = zbool(goal)
         key = (tuple(self.decisions), len(self.obligations))
+        info = dict(info or {})
+        info['def_ids'] = self.def_ids
+        if getattr(self, 'headstate', None) is not None:
+            info['after_head'] = True
         self.obligations.append(
             Obligation(name, kind, list(self.pc), g, loc or self.cur_loc, key, info, expect_sat, self.abstraction_used)
         )
@@ -431,6 +464,14 @@ class Path:
                 return self.wrap(vars[name], fr)
         f = self.func_stack[-1] if self.func_stack else None
         mod = f.module if f is not None else None
+        nat = getattr(f, 'native', None)
+        if nat is not None and getattr(nat, '__closure__', None):
+            fv = nat.__code__.co_freevars
+            if name in fv:
+                try:
+                    return self.import_native(nat.__closure__[fv.index(name)].cell_contents)
+                except ValueError:
+                    raise PyExc(NameError(name))
         if mod is not None and name in mod.__dict__:
             return self.import_native(mod.__dict__[name])
         if hasattr(_builtins, name):
